@@ -265,6 +265,8 @@ def run_busoff(spec, res):
         if m.n and "u" in m.params:
             before[mname] = np.array(m.u.v).copy()
     via = ["alter", "set", "alter-list", "set-list"][int(rng.integers(0, 4))]
+    if rng2.random() < 0.25:
+        via = ["group-set", "group-set-list", "group-alter"][int(rng2.integers(0, 3))]      # the same operation through the Bus group
     after_pf = bool(rng.integers(0, 2))
     try:
         if after_pf:
@@ -277,6 +279,13 @@ def run_busoff(spec, res):
                 ss.Bus.set("u", b, "v", 0)
         elif via == "alter-list":
             ss.Bus.alter("u", list(off), 0)
+        elif via == "group-set":
+            for b in off:
+                ss.groups[ss.Bus.group].set("u", b, "v", 0)
+        elif via == "group-set-list":
+            ss.groups[ss.Bus.group].set("u", list(off), "v", 0)
+        elif via == "group-alter":
+            ss.groups[ss.Bus.group].alter("u", list(off), 0)
         else:
             ss.Bus.set("u", list(off), "v", 0)
         install_monitor(ss, res, "busoff")
@@ -284,6 +293,7 @@ def run_busoff(spec, res):
     except Exception as e:
         res.inconc("bus switching raised %r" % (e,))
         return
+    res.count("busoff_via_" + via.replace("-", "_"))
     att = attached(ss, off)
     changed = set()
     for mname, m in ss.models.items():
